@@ -46,4 +46,9 @@ C19_DeltaToTimecode(x, ts, out) == out = RefDurToTc(x, ts)
 C19_TimecodeInverse(tc, ts, back) == back <= tc /\ tc - back <= 1
 \* monotone: for tc1 <= tc2 the deltas are ordered
 C19_TimecodeMonotone(d1, d2) == DurLe(d1, d2)
+\* scale_timedelta(x, num, denom): the delta x counted in units of denom / num seconds (segments of denom ticks at timescale
+\* num) - what the live edge is computed with; to within one unit of floor(x * num / denom), and monotone in x
+RefScaleFloor(x, num, denom) == (x.s * num + MulDivU(x.u, num)) \div denom
+C19_ScaleTimedelta(x, num, denom, got) == LET e == RefScaleFloor(x, num, denom) IN got - e <= 1 /\ e - got <= 1
+C19_ScaleMonotone(prevGot, got) == prevGot <= got
 =============================================================================
